@@ -23,7 +23,7 @@ def main():
             print(seed, "NOT KEPT:", c); continue
         dst = os.path.join(VERIF, "seeded", seed.replace("/", "-"))
         os.makedirs(dst, exist_ok=True)
-        for f in ("patch.diff", "demo.cpp", "notes.md", "demo.wrap"):
+        for f in ["patch.diff", "demo.cpp", "notes.md", "demo.wrap"] + [x for x in os.listdir(src) if x.endswith(".h")]:
             if os.path.exists(os.path.join(src, f)):
                 shutil.copy(os.path.join(src, f), os.path.join(dst, f))
         if sh(["git", "-C", REPO, "status", "--porcelain", "--untracked-files=no"]).stdout.strip():
